@@ -190,7 +190,7 @@ def run_range(argv, lo, hi, *, engine="", env=None, case_timeout=60.0, crash_pol
                 if multi_end and c.verdict is not None:
                     # several executions of the same case (scheduler seeds): keep the worst verdict, merge fingerprints
                     rank = {"held": 0, "inconclusive": 1, "violated": 2}
-                    c.fp = (c.fp + "," + r.get("fp", ""))[:4000]
+                    c.fp = (c.fp + "\x1f" + r.get("fp", ""))[:4000]
                     c.nontrivial = c.nontrivial or bool(r.get("nontrivial"))
                     if rank[r["verdict"]] > rank[c.verdict]:
                         c.verdict, c.sig, c.detail, c.obs = r["verdict"], r.get("sig", ""), r.get("detail", ""), r.get("obs")
@@ -213,7 +213,12 @@ def run_range(argv, lo, hi, *, engine="", env=None, case_timeout=60.0, crash_pol
             cur = open_case.idx + 1
             continue
         if rc == 0 and not timed_out:
-            break
+            # a workload may end its process on purpose after a case (e.g. a wait that cannot be cancelled)
+            last = max([c.idx for c in by_idx.values()], default=None)
+            if last is None or last + 1 >= hi:
+                break
+            cur = last + 1
+            continue
         # child died between cases or before the first begin
         nxt = max([c.idx for c in by_idx.values()] + [cur - 1]) + 1
         if not by_idx:
@@ -259,7 +264,7 @@ def finish(pid, tier, seed, level, cases, *, rule, t0, assumptions=None, extra_c
     fps = set()
     for c in cases:
         if c.nontrivial and c.verdict in ("held", "violated"):
-            for f in (c.fp or f"case{c.idx}:{c.engine}").split(","):
+            for f in (c.fp or f"case{c.idx}:{c.engine}").split("\x1f"):
                 if f:
                     fps.add(f)
     new_sigs = {}
